@@ -151,6 +151,25 @@ static void family_accept(int L) {
                         viol("accept", "refusing \"%s\" modified the value object (kind %d text \"%s\")", s, (int) cif_value_kind(v), back);
                     if (t2) free(t2);
                 }
+                /* the same refusal into a value that already is a number: text, value and su stay what they were */
+                {
+                    cif_value_tp *w = NULL; UChar *old = u_of("-2.50(25)"), *t3 = NULL; char back[32] = ""; double g = 0, gs = 0; int rc2;
+                    if (cif_value_create(CIF_UNK_KIND, &w) == CIF_OK) {
+                        if (cif_value_parse_numb(w, old) == CIF_OK) {
+                            UChar *u2 = u_of(s);
+                            old = NULL;
+                            rc2 = cif_value_parse_numb(w, u2);
+                            if (rc2 != CIF_OK) free(u2);
+                            if (rc2 != CIF_INVALID_NUMBER) viol("accept", "\"%s\" is not a number but parse_numb into a number value returned %d", s, rc2);
+                            else if (cif_value_kind(w) != CIF_NUMB_KIND || cif_value_get_text(w, &t3) != CIF_OK || !t3 || (a_of(t3, back, sizeof back), strcmp(back, "-2.50(25)"))
+                                    || cif_value_get_number(w, &g) != CIF_OK || g != -2.5 || cif_value_get_su(w, &gs) != CIF_OK || gs != 0.25)
+                                viol("accept", "refusing \"%s\" modified the number -2.50(25) it was to replace (kind %d text \"%s\" value %.17g su %.17g)", s, (int) cif_value_kind(w), back, g, gs);
+                            if (t3) free(t3);
+                        }
+                        cif_value_free(w);
+                    }
+                    if (old) free(old);
+                }
             }
             if (rc != CIF_OK) free(u);
             cif_value_free(v);
